@@ -342,6 +342,14 @@ pub fn patch_archive_bytes(with_encoding_info: bool) -> Result<Vec<u8>, String> 
 fn patch_archive(out: &mut Vec<(String, Vec<u8>)>) {
     push(out, "patch-archive-2files", patch_archive_bytes(false));
     push(out, "patch-archive-2files-encoding-info", patch_archive_bytes(true));
+    push(out, "patch-archive-keys-9-9-12-encoding-info", {
+        use cascette_formats::patch_archive::{PatchArchiveBuilder, PatchArchiveEncodingInfo};
+        let mut b = PatchArchiveBuilder::new().block_size_bits(12).key_sizes(9, 9, 12);
+        b = b.encoding_info(PatchArchiveEncodingInfo { encoding_ckey: key(0x50, 0), encoding_ekey: key(0x50, 1), decoded_size: 1000, encoded_size: 600, espec: "b:{*=z}".to_string() });
+        b.add_file_entry(key(0x58, 0), 0x01_0000_0001, vec![(key(0x5A, 0), 500, key(0x5C, 0), 200, 0)]);
+        b.add_file_entry(key(0x58, 1), 2000, vec![(key(0x5A, 2), 700, key(0x5C, 2), 300, 0)]);
+        b.build().map_err(e2s)
+    });
 }
 
 pub fn patch_index_bytes(key_size: u8, n: u8) -> Result<Vec<u8>, String> {
